@@ -119,7 +119,9 @@ def fix_for_decorator(case: dict) -> dict:
 def check(case: dict) -> Verdict:
     v = Verdict()
     out: list = []
-    if case.get("group") == "breaker":
+    if case.get("group") == "midflight":
+        entries = [e for e in ENTRIES if "decorator" not in e]  # @retry exposes no policy object to rebind
+    elif case.get("group") == "breaker":
         entries = BREAKER_ENTRIES
     elif case.get("group") == "noretry":
         entries = NORETRY_ENTRIES
@@ -147,13 +149,107 @@ def case_st(draw):
     pl["sleeper_flavour"] = draw(st.sampled_from(["async", "async", "awaitable", "awaitable_obj", "gen_coroutine", "sync"]))
     pl["before_flavour"] = draw(st.sampled_from(["async", "async", "awaitable", "awaitable_obj", "gen_coroutine", "sync"]))
     case["placement"] = pl
-    grp = draw(st.sampled_from(["plain"] * 6 + ["breaker"] * 3 + ["noretry"]))
+    grp = draw(st.sampled_from(["plain"] * 6 + ["breaker"] * 3 + ["noretry"] + ["midflight"]))
+    if grp == "midflight":
+        # public attributes are rebound while the call is backing off: every entry point must react alike
+        case["group"] = "midflight"
+        spec = {}
+        for k in draw(st.lists(st.sampled_from(["max_attempts", "deadline", "per_class", "max_unknown"]), min_size=1, max_size=2, unique=True)):
+            spec[k] = {"max_attempts": draw(st.sampled_from([1, 2, 4, 9])), "deadline": draw(st.integers(1, 128)), "per_class": {"TRANSIENT": draw(st.sampled_from([0, 1]))}, "max_unknown": draw(st.sampled_from([0, 1]))}[k]
+        case["calls"][0]["midflight"] = {"at_sleep": draw(st.sampled_from([0, 1])), "set": spec}
+        return case
     if grp != "plain":
         case["group"] = grp
         case["cfg"]["breaker"] = draw(gen.breaker_spec())
         if grp == "noretry":
             case["placement"] = {"attempt_hooks": pl.get("attempt_hooks", "call")}
     return case
+
+
+# ---------------------------------------------------------------------------- real clock: attempt_timeout_s rebound mid-run
+
+
+@st.composite
+def live_timeout_case(draw):
+    return {"hang_at": draw(st.sampled_from([2, 2, 3])), "set_at_sleep": draw(st.sampled_from([0, 0, 1])), "new_timeout": draw(st.sampled_from([0.05, 0.08])), "initial": draw(st.sampled_from([None, None, 30.0]))}
+
+
+def check_live_timeout(case: dict) -> Verdict:
+    """attempt_timeout_s is assigned while a run is in flight (a config reload from the sleeper). Whatever the
+    library does with the new value (use it at once, or from the next run on), all four entry points must do
+    the same: same number of invocations, same kind of result."""
+    import asyncio
+    import threading
+
+    import redress
+
+    v = Verdict()
+    results = {}
+    for name in ("Retry.call", "Retry.execute", "AsyncRetry.call", "AsyncRetry.execute"):
+        is_async = name.startswith("Async")
+        mode = name.split(".")[1]
+        n = {"op": 0, "sleep": 0}
+        release = threading.Event()
+        kw = dict(classifier=lambda e: redress.ErrorClass.TRANSIENT, strategy=lambda ctx: 0.0, max_attempts=4, deadline_s=60.0, attempt_timeout_s=case["initial"])
+        pol = (redress.AsyncRetry if is_async else redress.Retry)(**kw)
+
+        def on_sleep():
+            if n["sleep"] == case["set_at_sleep"]:
+                pol.attempt_timeout_s = case["new_timeout"]
+            n["sleep"] += 1
+
+        def op():
+            n["op"] += 1
+            if n["op"] == 1:
+                raise ConnectionError("first")
+            if n["op"] == case["hang_at"]:
+                release.wait(0.4)
+                return "late"
+            if n["op"] < case["hang_at"]:
+                raise ConnectionError("again")
+            return "ok"
+
+        async def aop():
+            n["op"] += 1
+            if n["op"] == 1:
+                raise ConnectionError("first")
+            if n["op"] == case["hang_at"]:
+                await asyncio.sleep(0.4)
+                return "late"
+            if n["op"] < case["hang_at"]:
+                raise ConnectionError("again")
+            return "ok"
+
+        def sleeper(s):
+            on_sleep()
+
+        async def asleeper(s):
+            on_sleep()
+
+        try:
+            if is_async:
+                loop = asyncio.new_event_loop()
+                try:
+                    r = loop.run_until_complete(getattr(pol, mode)(aop, sleeper=asleeper))
+                finally:
+                    loop.close()
+            else:
+                r = getattr(pol, mode)(op, sleeper=sleeper)
+            val = r.value if isinstance(r, redress.RetryOutcome) else r
+            ok = r.ok if isinstance(r, redress.RetryOutcome) else True
+            results[name] = (n["op"], "value" if ok else "fail", val if ok else None)
+        except Exception as x:  # noqa: BLE001
+            results[name] = (n["op"], "raise", type(x).__name__)
+        finally:
+            release.set()
+        v.evals += 1
+    base = results["Retry.call"]
+    for name, r in results.items():
+        if r != base:
+            v.fail(f"C12:live-timeout:{name}", f"{case}: attempt_timeout_s assigned mid-run: Retry.call -> {base} but {name} -> {r} (invocations, result)")
+    v.nontrivial = True
+    v.tag("real-midflight-timeout")
+    return v
 
 
 PROP = Property(
@@ -168,5 +264,8 @@ PROP = Property(
         "entry points (incl. breaker calls and events); no-retry policies compare their 4 entry points. Non-trivial = case "
         "with >= 1 granted retry, or a breaker / no-retry group case. evaluations counts runs (cases x entry points)."
     ),
-    streams=[Stream("pairwise", check, strategy=case_st(), quick=2500, thorough=60000)],
+    streams=[
+        Stream("pairwise", check, strategy=case_st(), quick=2500, thorough=60000),
+        Stream("live_attempt_timeout", check_live_timeout, strategy=live_timeout_case(), quick=32, thorough=300, per_shard_min=2),
+    ],
 )
